@@ -1,8 +1,15 @@
 (* Props/C06.v — C06: a write interrupted at any byte leaves a prefix that is reported, not misread.
-   Chunk level (this file, growing): every proper prefix of a serialised chunk reads as
-   UnexpectedEof — never a success, never a panic; a chunk that was completely written reads back
-   exactly. *)
-From PNA Require Import Base Crc32 Codec Chunk Archive Entry BaseFacts ChunkFacts ArchiveFacts EntryFacts.
+   Theorem families (model of lib/src/chunk/read.rs, archive/read.rs incl. read_next_archive; proofs in
+   Proofs/{ChunkFacts,ArchiveFacts,PartsFacts}.v):
+     chunk      every proper prefix of a serialised chunk reads as UnexpectedEof; a complete chunk reads back
+     archive    every proper prefix of every archive the writer produces ends with UnexpectedEof after exactly
+                the completely written entries; a complete archive reads back and ends Ok
+     multipart  the same for a chain of part files cut at any byte of any part (entries may straddle parts);
+                a complete chain reads back; a missing part is NotFound
+     converse   for ALL inputs: a read (single archive or chain) ends Ok only at an AEND chunk that no ANXT
+                precedes in its part — so no truncated input is ever taken for a complete one
+     readers    stream and slice readers are the same functions *)
+From PNA Require Import Base Crc32 Codec Chunk Archive Entry BaseFacts ChunkFacts ArchiveFacts EntryFacts OffsetFacts PartsFacts.
 Open Scope N_scope.
 
 Theorem C06_truncated_chunk_is_eof :
@@ -56,3 +63,100 @@ Theorem C06_part_chain_readers_same :
   forall parts, read_parts read_chunk_slice parts = read_parts read_chunk_stream parts.
 Proof. exact stream_slice_agree_parts. Qed.
 Print Assumptions C06_part_chain_readers_same.
+
+(* ---- multipart ------------------------------------------------------------------------------
+   part_bytes num body last = header(num) ++ body chunks ++ (ANXT unless last) ++ AEND;  chain_nl n0 pre = the part
+   files for the bodies `pre`, numbered from n0, all announcing a successor; body_ok = well-formed chunks, none of
+   them ANXT/AEND; scan = cut a chunk sequence behind every FEND/SEND; chunks_before b m = the chunks of b wholly
+   within its first m bytes.  A chain cut at ANY byte n of ANY part (last or not): never Ok, never a panic;
+   UnexpectedEof after exactly the entries that the delivered chunks complete. *)
+Theorem C06_truncation_multipart :
+  forall pre bk lf n0 n, Forall body_ok pre -> body_ok bk -> n0 + len pre < 2 ^ 32 ->
+  (n < length (part_bytes (n0 + len pre) bk lf))%nat ->
+  read_parts read_chunk_stream (chain_nl n0 pre ++ [firstn n (part_bytes (n0 + len pre) bk lf)]) =
+  if is_nil pre && Nat.ltb n 28 then Err UnexpectedEof
+  else Ok (fst (scan [] (concat pre ++ chunks_before bk (n - 28))), FinErr UnexpectedEof).
+Proof. exact truncation_multipart. Qed.
+Check C06_truncation_multipart :
+  forall pre bk lf n0 n, Forall body_ok pre -> body_ok bk -> n0 + len pre < 2 ^ 32 ->
+  (n < length (part_bytes (n0 + len pre) bk lf))%nat ->
+  read_parts read_chunk_stream (chain_nl n0 pre ++ [firstn n (part_bytes (n0 + len pre) bk lf)]) =
+  if is_nil pre && Nat.ltb n 28 then Err UnexpectedEof
+  else Ok (fst (scan [] (concat pre ++ chunks_before bk (n - 28))), FinErr UnexpectedEof).
+Print Assumptions C06_truncation_multipart.
+
+(* in terms of entries: the chunk stream of the well-formed entries `es` distributed in any way over the part
+   files pre ++ bk :: post (as the split writer does; cuts between chunks), cut inside part k = length pre at byte n:
+   exactly the first `complete_chunks es delivered` entries, delivered = number of chunks wholly delivered *)
+Theorem C06_truncation_multipart_entries :
+  forall es pre bk post n0 n,
+  Forall wf_entry es -> concat (pre ++ bk :: post) = concat es -> n0 + len pre < 2 ^ 32 ->
+  let p := part_bytes (n0 + len pre) bk (is_nil post) in
+  (n < length p)%nat ->
+  let delivered := (length (concat pre) + length (chunks_before bk (n - 28)))%nat in
+  read_parts read_chunk_stream (firstn (length pre) (chain n0 (pre ++ bk :: post)) ++ [firstn n p]) =
+  if is_nil pre && Nat.ltb n 28 then Err UnexpectedEof
+  else Ok (firstn (complete_chunks es delivered) es, FinErr UnexpectedEof).
+Proof. exact truncation_multipart_entries. Qed.
+Check C06_truncation_multipart_entries :
+  forall es pre bk post n0 n,
+  Forall wf_entry es -> concat (pre ++ bk :: post) = concat es -> n0 + len pre < 2 ^ 32 ->
+  let p := part_bytes (n0 + len pre) bk (is_nil post) in
+  (n < length p)%nat ->
+  let delivered := (length (concat pre) + length (chunks_before bk (n - 28)))%nat in
+  read_parts read_chunk_stream (firstn (length pre) (chain n0 (pre ++ bk :: post)) ++ [firstn n p]) =
+  if is_nil pre && Nat.ltb n 28 then Err UnexpectedEof
+  else Ok (firstn (complete_chunks es delivered) es, FinErr UnexpectedEof).
+Print Assumptions C06_truncation_multipart_entries.
+
+(* premises are met and the statement is not vacuous: a three-part chain with an entry straddling both boundaries *)
+Example C06_multipart_example :
+  Forall body_ok [exp_b0; exp_b1; exp_b2] /\ Forall wf_entry [exp_e1; exp_e2; exp_e3] /\
+  concat [exp_b0; exp_b1; exp_b2] = concat [exp_e1; exp_e2; exp_e3] /\
+  read_parts read_chunk_stream exp_chain = Ok ([exp_e1; exp_e2; exp_e3], FinOk) /\
+  read_parts read_chunk_stream (firstn 1 exp_chain ++ [firstn 45 (nth 1 exp_chain [])]) = Ok ([exp_e1], FinErr UnexpectedEof).
+Proof. exact (conj (proj1 exp_wf) (conj (proj1 (proj2 exp_wf)) (conj (proj2 (proj2 exp_wf)) (conj exp_read exp_cut)))). Qed.
+
+(* a completely written chain reads back: all parts are consumed, exactly the entries come out, the end is Ok *)
+Theorem C06_complete_chain_reads_back :
+  forall es pre b n0, Forall wf_entry es -> concat (pre ++ [b]) = concat es -> n0 + len pre < 2 ^ 32 ->
+  read_parts read_chunk_stream (chain n0 (pre ++ [b])) = Ok (es, FinOk).
+Proof. exact chain_read_entries. Qed.
+Check C06_complete_chain_reads_back :
+  forall es pre b n0, Forall wf_entry es -> concat (pre ++ [b]) = concat es -> n0 + len pre < 2 ^ 32 ->
+  read_parts read_chunk_stream (chain n0 (pre ++ [b])) = Ok (es, FinOk).
+Print Assumptions C06_complete_chain_reads_back.
+
+(* the writer was interrupted between two part files: the announced part is missing — NotFound, not Ok *)
+Theorem C06_missing_part :
+  forall pre b n0, Forall body_ok (b :: pre) -> n0 + len pre < 2 ^ 32 ->
+  read_parts read_chunk_stream (chain_nl n0 (b :: pre)) = Ok (fst (scan [] (concat (b :: pre))), FinErr NotFound).
+Proof. exact chain_missing_part. Qed.
+Check C06_missing_part :
+  forall pre b n0, Forall body_ok (b :: pre) -> n0 + len pre < 2 ^ 32 ->
+  read_parts read_chunk_stream (chain_nl n0 (b :: pre)) = Ok (fst (scan [] (concat (b :: pre))), FinErr NotFound).
+Print Assumptions C06_missing_part.
+
+(* ---- converse, for ALL inputs -------------------------------------------------------------------
+   ends_ok p: p = signature ++ AHED chunk ++ chunks none of which is ANXT or AEND ++ AEND chunk ++ anything.
+   Whatever byte strings are handed to the reader as parts: if the read ends Ok, the part at which it stopped has
+   that form.  (A single archive is the chain of one part.) *)
+Theorem C06_ok_only_at_aend :
+  forall ps es, read_parts read_chunk_stream ps = Ok (es, FinOk) ->
+  exists k p, nth_error ps k = Some p /\ ends_ok p.
+Proof. exact read_parts_ok_inv. Qed.
+Check C06_ok_only_at_aend :
+  forall ps es, read_parts read_chunk_stream ps = Ok (es, FinOk) ->
+  exists k p, nth_error ps k = Some p /\ ends_ok p.
+Print Assumptions C06_ok_only_at_aend.
+
+Theorem C06_single_ok_only_at_aend :
+  forall fuel s es s', raw_entries_loop read_chunk_stream fuel s = (es, FinOk, s') ->
+  exists cs a, r_rest s = ser_chunks cs ++ ser_chunk a ++ r_rest s' /\ Forall wf_chunk cs /\ wf_chunk a /\
+    Forall (fun x => ty_is x AEND = false) cs /\ ty_is a AEND = true /\ r_next s' = r_next s || has_anxt cs.
+Proof. exact raw_loop_ok_inv. Qed.
+Check C06_single_ok_only_at_aend :
+  forall fuel s es s', raw_entries_loop read_chunk_stream fuel s = (es, FinOk, s') ->
+  exists cs a, r_rest s = ser_chunks cs ++ ser_chunk a ++ r_rest s' /\ Forall wf_chunk cs /\ wf_chunk a /\
+    Forall (fun x => ty_is x AEND = false) cs /\ ty_is a AEND = true /\ r_next s' = r_next s || has_anxt cs.
+Print Assumptions C06_single_ok_only_at_aend.
